@@ -118,6 +118,23 @@ def run_miri(ctx, cases, out_name, timeout):
     raise fw.ToolError("miri run failed without a Miri diagnosis (rc=%d, %d/%d histories)" % (rc, done, ncases))
 
 
+def drive_fault(ctx, exe, argv, out_name, build):
+    """ctx.drive, except that a driver killed by a signal is an observation: the history it was executing (left in
+    <out>.current) becomes a violation; returns the trace path or None"""
+    out = ctx.path(out_name)
+    rc, o = fw.sh([exe] + argv + ["--out", out], cwd=ctx.rundir, timeout=3000)
+    if rc == 0:
+        return out
+    if rc < 0 or rc in (134, 135, 138, 139):
+        cur = out + ".current"
+        case = json.loads(open(cur).readline()) if os.path.exists(cur) else {"steps": []}
+        case.update({"op": "fault", "signal": -rc if rc < 0 else rc - 128, "build": build, "executor": "recording-allocator"})
+        ctx.violations.append((case, "process-killed-by-signal", "native"))
+        return None
+    sys.stderr.write(o[-3000:])
+    raise fw.ToolError("harness driver failed rc=%d: %s" % (rc, " ".join(argv[:4])))
+
+
 def guard_runs(ctx, cases, only=None):
     """c17g under guard pages; a run that dies by a signal leaves the history it was executing in <out>.current"""
     total = 0
@@ -187,20 +204,23 @@ def run(ctx):
     if os.path.getsize(wit):
         trw = ctx.drive(drive, ["--cases", wit, "--n", "0", "--lite"], "trace-witness.ndjson")
         monitor_all(ctx, "mon-witness", trw, cfg, totals)
-    tr1 = ctx.drive(drive, ["--cases", cases, "--n", "0", "--lite"], "trace-gen.ndjson")
-    monitor_all(ctx, "mon-gen", tr1, cfg, totals)
-    os.remove(tr1)
+    tr1 = drive_fault(ctx, drive, ["--cases", cases, "--n", "0", "--lite"], "trace-gen.ndjson", "std64")
+    if tr1:
+        monitor_all(ctx, "mon-gen", tr1, cfg, totals)
+        os.remove(tr1)
     # impl -> spec: seeded random histories with sizes up to 24 words
     n = ctx.pick(2500, 40000)
-    tr2 = ctx.drive(drive, ["--seed", str(ctx.seed), "--n", str(n), "--len", "16", "--max-words", "24", "--lite"], "trace-rnd.ndjson")
-    monitor_all(ctx, "mon-rnd", tr2, cfg, totals)
-    os.remove(tr2)
+    tr2 = drive_fault(ctx, drive, ["--seed", str(ctx.seed), "--n", str(n), "--len", "16", "--max-words", "24", "--lite"], "trace-rnd.ndjson", "std64")
+    if tr2:
+        monitor_all(ctx, "mon-rnd", tr2, cfg, totals)
+        os.remove(tr2)
     # the same random source in the optimised build: debug assertions are compiled out there, so an access the
     # assertions would have stopped reaches the allocation (red zones, sizes and identities are recorded as before)
     rel = fw.build("release", "c17")
-    tr3 = ctx.drive(rel, ["--seed", str(ctx.seed + 11), "--n", str(ctx.pick(1500, 20000)), "--len", "16", "--max-words", "24", "--lite"], "trace-rnd-release.ndjson")
-    monitor_all(ctx, "mon-rnd-release", tr3, cfg, totals)
-    os.remove(tr3)
+    tr3 = drive_fault(ctx, rel, ["--seed", str(ctx.seed + 11), "--n", str(ctx.pick(1500, 20000)), "--len", "16", "--max-words", "24", "--lite"], "trace-rnd-release.ndjson", "release")
+    if tr3:
+        monitor_all(ctx, "mon-rnd-release", tr3, cfg, totals)
+        os.remove(tr3)
     # guard-page executor: every block the library allocates lies against an inaccessible page (behind it; in a second pass
     # in front of it), freed blocks stay inaccessible: an out-of-bounds READ or a use after free is a hardware fault.  The
     # generated histories and fresh random ones, debug and release.
